@@ -69,6 +69,7 @@ struct Slot
     std::vector<FrameM> cycle_frames;
     uint64_t next_frame_id = 0;
     int cycles = 0;
+    bool can_restart = false; // stopped cleanly with a valid configuration
 };
 
 struct FaultSpec
@@ -313,6 +314,20 @@ struct StorHarness : Harness
         if (!close_running) {
             snprintf(b, sizeof(b), "stop slot=%d", slot);
             ops.push_back(b);
+            if (g.chance(0.25)) {
+                // the user moves the output away and acquires again with the
+                // same configuration (start without a new set)
+                snprintf(b, sizeof(b), "restart slot=%d", slot);
+                ops.push_back(b);
+                int nb = (int)g.range(1, 3);
+                for (int i = 0; i < nb; ++i) {
+                    std::string a = gen_append(g);
+                    snprintf(b, sizeof(b), a.c_str(), slot);
+                    ops.push_back(b);
+                }
+                snprintf(b, sizeof(b), "stop slot=%d", slot);
+                ops.push_back(b);
+            }
         }
     }
 
@@ -564,6 +579,7 @@ struct StorHarness : Harness
                     if (spelling == "filerel" || spelling == "fileabs")
                         base = "file://" + base;
                 }
+                s.can_restart = false;
                 s.meta = user_meta(op.s("meta", "none"));
                 struct StorageProperties props;
                 memset(&props, 0, sizeof(props));
@@ -589,7 +605,19 @@ struct StorHarness : Harness
                                 "configuration (uri '%s', metadata '%s')",
                                 s.kind.c_str(), base.c_str(), s.meta.c_str());
                 s.path = path;
-            } else if (op.name == "start") {
+            } else if (op.name == "start" || op.name == "restart") {
+                if (op.name == "restart") {
+                    // same configuration again; the previous output was moved
+                    // away (files are created without truncation, so acquiring
+                    // onto an existing file is outside the property)
+                    if (!s.dev || s.started || !s.can_restart)
+                        continue;
+                    simfs::remove(s.path);
+                    simfs::remove(s.path + "/data.tif");
+                    simfs::remove(s.path + "/metadata.json");
+                    s.configured = true;
+                    probe("reach.restart_without_set");
+                }
                 if (!s.dev || !s.configured || s.started)
                     continue;
                 enum DeviceStatusCode rc = storage_start(s.dev);
@@ -665,6 +693,7 @@ struct StorHarness : Harness
                 storage_stop(s.dev);
                 s.started = false;
                 s.configured = false; // a fresh path is set for every cycle
+                s.can_restart = !c->faults;
                 s.cycles++;
                 if (c->faults)
                     continue;
